@@ -43,6 +43,10 @@ class Harness:
         """prove cond under the path condition; on a model record a violation.
         Returns True when the claim holds."""
         self.obligations += 1
+        if sum(1 for v in self.violations if v['key'] == key) >= 3:
+            # this task already reports the key three times (each is replayed): further instances are not solved for, the verdict cannot change
+            self.skipped_after_violation = getattr(self, 'skipped_after_violation', 0) + 1
+            return False
         try:
             m = core.prove(cond, what, robust)
         except core.Inconclusive:
